@@ -83,6 +83,11 @@ inline const rs::Gamma& gamma() {
     { Global a; a.name = "A1"; a.type = Ty::Logic(); G.globals.push_back(a); }
     { FuncDef f; f.name = "F1"; f.args = {{"a", Ty::Set(Ty::Base("R1"))}, {"b", Ty::Set(Ty::Base("R1"))}}; f.result = Ty::Set(Ty::Base("R1")); f.body = mk(TID::SET_MINUS, {mkName(TID::ID_LOCAL, "a"), mkName(TID::ID_LOCAL, "b")}); G.funcs.push_back(f); }
     { FuncDef f; f.name = "P1"; f.args = {{"a", Ty::Base("X1")}}; f.result = Ty::Logic(); f.body = mk(TID::IN, {mkName(TID::ID_LOCAL, "a"), mkName(TID::ID_GLOBAL, "X1")}); G.funcs.push_back(f); }
+    // functions whose bodies can fail at run time (debool of a non-singleton, also through a nested call): their inlined
+    // nodes must report positions inside the text that was evaluated, not inside the function's own definition
+    { FuncDef f; f.name = "F2"; f.args = {{"a", Ty::Set(Ty::Base("R1"))}}; f.result = Ty::Base("R1"); f.body = mk(TID::DEBOOL, {mkName(TID::ID_LOCAL, "a")}); G.funcs.push_back(f); }
+    { FuncDef f; f.name = "F3"; f.args = {{"a", Ty::Set(Ty::Base("X1"))}}; f.result = Ty::Set(Ty::Base("X1")); f.body = mk(TID::NT_ENUMERATION, {mk(TID::NT_FUNC_CALL, {mkName(TID::ID_FUNCTION, "F2"), mk(TID::UNION, {mkName(TID::ID_LOCAL, "a"), mkName(TID::ID_LOCAL, "a")})})}); G.funcs.push_back(f); }
+    { FuncDef f; f.name = "P2"; f.args = {{"a", Ty::Set(Ty::Base("R1"))}, {"b", Ty::Base("R1")}}; f.result = Ty::Logic(); f.body = mk(TID::EQUAL, {mk(TID::DEBOOL, {mkName(TID::ID_LOCAL, "a")}), mkName(TID::ID_LOCAL, "b")}); G.funcs.push_back(f); }
     return G;
   }();
   return g;
